@@ -1213,6 +1213,16 @@ impl Vm {
         );
     }
 
+    #[cfg(feature = "verif-hooks")]
+    pub(crate) fn verif_stack_slot(&self, idx: usize) -> Option<Value> {
+        self.stack.get(idx).cloned()
+    }
+
+    #[cfg(feature = "verif-hooks")]
+    pub(crate) fn verif_shape(&self) -> (usize, usize) {
+        (self.stack.len(), self.frames.len())
+    }
+
     pub fn add_string(&mut self, m: Markup) -> u16 {
         self.strings.push(m);
         assert!(self.strings.len() <= u16::MAX as usize);
